@@ -11,7 +11,8 @@ RULE = ('cases = one call of mixed_rank_graph (or compute_batch_ranking) on a fr
         'k in 1..40 with hostile column names (spaces, unicode, names containing " AND ", names equal up to case, relation columns '
         '"a AND_REL b", base features together with their own " AND " interaction names), label anywhere and under other names, caps {1, 2, |set|-1, |set|, |set|+k, 10^6}; reference-model (prior) heuristics with a reference JSON; 150-column frames (> 10^4 candidate pairs) with caps above 10^4 for 3MR and non-3MR heuristics. The sampler is wrapped to '
         'record the candidate list offered and the pool records the tasks actually evaluated. distinct = (k, label position, mode, '
-        'heuristic class, cap regime, names hash); non-trivial = at least 2 columns.')
+        'heuristic class, cap regime, names hash); non-trivial = at least 2 columns. Through compute_batch_ranking also with --feature_set_focus '
+        '(batch feature space = named columns that exist + label).')
 REQUIRED = {'both-orientations': 100, 'requested-set': 100, 'cap-before-evaluation': 50, 'names-in-frame': 100, 'constant-once': 20}
 EXHAUSTIVE_NOTE = {'quick': 'k<=5 columns x every label position x 2 modes x 3 heuristic classes x every cap in 1..|list|+1',
                    'thorough': 'k<=6 columns x every label position x 2 modes x 3 heuristic classes x every cap in 1..|list|+1'}
